@@ -691,7 +691,9 @@ def opSched (j : Lean.Json) : Except String Lean.Json := do
   let objs ← (← arr j "objs").toList.mapM fun o => do
     pure (← str o "oid", ({ data := ← unhex (← str o "data"), prot := ← bool o "prot" } : Crash.Obj))
   let ths ← (← arr j "threads").toList.mapM fun t => do
-    pure ({ oid := ← str t "oid", t := (← nat t "tmp", 0), chunks := ← hexList t "chunks" } : Conc.Thread)
+    -- `check_exists=false` (what `transfer()` passes): the writer starts straight at the copy
+    let start : Conc.Pc := match t.getObjVal? "check_exists" with | .ok (.bool false) => .probe | _ => .stat
+    pure ({ oid := ← str t "oid", t := (← nat t "tmp", 0), chunks := ← hexList t "chunks", pc := start } : Conc.Thread)
   let sched ← (← arr j "sched").toList.mapM fun x => x.getNat?
   let watch ← strList j "watch"
   let H : Crash.Bytes → Crash.Oid := fun b => md5Of b
